@@ -247,14 +247,30 @@ DPOR_SPACES_THOROUGH = DPOR_SPACES_QUICK + [("dporK3", 3, ["ld", "st"], ["x", "y
                                             ("dporCs2", 3, ["cs2", "ld", "st"], ["x"], ["m"], 2, 1)]
 
 
-def dpor_space(ctx, bounds, want, quick_sample=120, thorough_sample=0):
+def dpor_extra_spaces(which):
+    import dporcheck
+    S = {
+        "chan": lambda: {"label": "dporChan", "n": 3, "progs": dporcheck.space2(3, ["send", "st", "ld"], ["recv", "tryrecv", "ld"], ["x"], ["m"], 2, 2, chan=True)},
+        "arc1": lambda: {"label": "dporArc1", "n": 3, "progs": dporcheck.space2(3, ["acount", "aclonedrop", "ld"], ["acount"], ["x"], ["m"], 1, 1, arc=True)},
+        "arc2": lambda: {"label": "dporArc2", "n": 3, "progs": dporcheck.space2(3, ["acount", "aclonedrop", "acloneinspectdrop"], [], ["x"], ["m"], 1, 0, arc=True)},
+        # spaces in which the design itself is known to be incomplete (F15, F17, F13): conformance of the schedule sets only
+        "park": lambda: {"label": "dporPark", "n": 3, "invariants": False,
+                         "progs": dporcheck.space2(3, ["park", "ld", "st"], ["ld", "st"], ["x"], ["m"], 2, 1, unpark_to=(1, 2, 3))},
+        "yield": lambda: {"label": "dporYield", "n": 3, "invariants": False, "progs": dporcheck.space(3, ["ld", "st", "csld", "yield"], ["x", "y"], ["m"], 2, 0)},
+        "try": lambda: {"label": "dporTry", "n": 3, "invariants": False, "progs": dporcheck.space(3, ["ld", "st", "csld", "try"], ["x"], ["m"], 2, 0)},
+    }
+    return [S[w]() for w in which]
+
+
+def dpor_space(ctx, bounds, want, quick_sample=120, thorough_sample=0, spaces=None):
     """Dpor.tla over whole program spaces: the design's invariants (TLC), the property on the real loom for the same
     programs, and the conformance of the spec's predicted schedule sets (dporcheck.py)"""
     import dporcheck, random
     rng = random.Random(ctx.seed * 65537 + 7)
     ctx.assumptions.append("Dpor.tla program spaces: straight-line threads over SeqCst loads/stores and mutex sections; reference = full "
                            "interleaving semantics computed by TLC (RefOutcomes); loom may return more (SeqCst accesses are acquire/release)")
-    spaces = DPOR_SPACES_QUICK if ctx.tier == "quick" else DPOR_SPACES_THOROUGH
+    if spaces is None:
+        spaces = DPOR_SPACES_QUICK if ctx.tier == "quick" else DPOR_SPACES_THOROUGH
     return dporcheck.run(ctx, spaces, bounds, quick_sample if ctx.tier == "quick" else thorough_sample, rng, want=want)
 
 
@@ -265,6 +281,7 @@ def C01(ctx):
     sync_family(ctx, progs)
     exhaustive_part(ctx, families.exhaustive_sync(), ("complete", "sound", "fails", "trace"), label="exh_sync")
     dpor_space(ctx, [None], ("C01",))
+    dpor_space(ctx, [None], ("C01",), quick_sample=60, spaces=dpor_extra_spaces(["chan"]))
 
 
 def C04(ctx):
@@ -298,6 +315,8 @@ def C08(ctx):
 def C09(ctx):
     ctx.assumptions += ["channel = FIFO sequence; send after the receiver was dropped queues nothing (std)"]
     sync_family(ctx, families.chans(ctx.tier, ctx.seed))
+    # Dpor.tla with the channel's dependence classes: every program of the space, reference = full interleavings (TLC)
+    dpor_space(ctx, [None], ("C01",), quick_sample=200, spaces=dpor_extra_spaces(["chan"]))
 
 
 def C10(ctx):
@@ -310,6 +329,8 @@ def C11(ctx):
     ctx.assumptions += ["reference count machine: count/get_mut/try_unwrap read the count at that instant; payload dropped by "
                         "the decrement that reaches zero; the payload's Drop writes a cell every owner reads before dropping"]
     sync_family(ctx, families.arcs_family(ctx.tier, ctx.seed))
+    # Dpor.tla with the Arc's dependence classes (increment / decrement / inspection)
+    dpor_space(ctx, [None], ("C01",), quick_sample=0, spaces=dpor_extra_spaces(["arc1"] if ctx.tier == "quick" else ["arc1", "arc2"]))
 
 
 def path_programs(ctx, n_per=None):
@@ -396,6 +417,7 @@ def C14(ctx):
     enginecheck.run_engine(ctx, ["ExploreMC_small.cfg", "ExploreMC_hash_b99.cfg"] +
                            (["ExploreMC_hash_b1.cfg", "ExploreMC_small_b1.cfg"] if ctx.tier == "thorough" else []))
     dpor_space(ctx, [None, 1], (), quick_sample=40)          # NoRepeat of the design + predicted = executed schedule sets
+    dpor_space(ctx, [None, 1], (), quick_sample=60, thorough_sample=400, spaces=dpor_extra_spaces(["park", "yield", "try", "chan"]))
     ctx.cov["programs"] += len(progs)
     ctx.cov["evaluations"] += sum(len(r["hook_events"]) for r in res)
     ctx.cov["distinct_nontrivial"] += nontriv
